@@ -40,7 +40,11 @@ QuadsFull == <<
   << <<DL, DL>>, <<HS, HS>>, <<AT>>, <<TD>> >>,
   << <<DL, DL, HS>>, <<HS>>, <<AT>>, <<TD>> >>,
   \* an object delimiter longer than a whole short tag ("<x>"): the end of the source comes before it would
-  << <<LP, LP, LP, LP>>, <<RP, RP, RP, RP>>, <<LT>>, <<GT>> >>
+  << <<LP, LP, LP, LP>>, <<RP, RP, RP, RP>>, <<LT>>, <<GT>> >>,
+  \* punctuation beyond ASCII (characters of two and three bytes): the guillemets, one of them after an ASCII sign
+  << <<194, 171>>, <<194, 187>>, <<226, 128, 185>>, <<226, 128, 186>> >>,
+  << <<LB, LB>>, <<RB, RB>>, <<194, 171, 37>>, <<37, 194, 187>> >>,
+  << <<194, 161>>, <<33>>, <<194, 191>>, <<63, 226, 128, 186>> >>
 >>
 NonPrefixing(q) == \A i, j \in 1..4 : i # j => ~IsPrefixOf(q[i], q[j])
 Quads == SelectSeq(QuadsFull, NonPrefixing)
